@@ -56,7 +56,7 @@ Create(F, T, asc, lo, route) ==
     /\ LogC([name |-> "Create", F |-> F, T |-> T, asc |-> asc, lo |-> lo, route |-> route], [st |-> "ok"])
 
 GetWaterfall(o) ==
-    /\ ~Der /\ Active /\ o \in 1..Len(objs)
+    /\ (~Der \/ o = 1) /\ Active /\ o \in 1..Len(objs)
     /\ objs' = [objs EXCEPT ![o].wf = TRUE]
     /\ last' = [st |-> "ok"] /\ UNCHANGED files
     /\ Log([name |-> "GetWaterfall", o |-> o], [st |-> "ok"])
